@@ -33,23 +33,25 @@ def mapGrad (s : List Char) : List Char :=
   s.map fun c => if c = ',' || c = '(' || c = ')' || c = ' ' || c = '\t' || c = '\n' || c = '\r' || c.toNat = 11 || c.toNat = 12
     || c.toNat = 0x85 || c.toNat = 0xA0 then '_' else c
 
-/-- drop a trailing `&xyz` (it would also match the beginning of an escaped `&amp;xyz…`) -/
-def stripTrailingRef (s : List Char) : List Char :=
-  let r := s.reverse.dropWhile fun c => c.isAlphanum || c = '#'
-  match r with
-  | '&' :: rest => rest.reverse
-  | _ => s
+/-- `s` occurs in `doc` at a place where it is not the beginning of its own escaped form: a trailing `&` of `s`
+    must not be continued by `amp;` -/
+def occursRaw (s : List Char) : List Char → Bool
+  | [] => false
+  | doc@(_ :: rest) =>
+      (s.isPrefixOf doc && !(s.getLast? == some '&' && ['a', 'm', 'p', ';'].isPrefixOf (doc.drop s.length)))
+        || occursRaw s rest
 
 /-- fields whose user string (containing a markup character) occurs verbatim, i.e. unescaped, in the document -/
 def rawFields (doc : List Char) (cans : Array Json) : List String :=
   let hits := cans.toList.filterMap fun c =>
     match getStr c "s", getStr c "field", getStr c "tok" with
     | .ok s, .ok field, .ok tok =>
-      let sl := stripTrailingRef s.toList
+      let sl := s.toList
       let t := tok.toList
       -- sound evidence of unescaped emission: the string itself (when it does not occur inside its own escaped form),
       -- or the token directly after a raw `<` / `&` / `<!--`
-      let verbatim := hasMeta sl && !sl.contains '\n' && !isInfix sl (escapeText sl) && (isInfix sl doc || (field == "gradpos" && isInfix (mapGrad sl) doc))
+      let verbatim := hasMeta sl && sl.length ≥ 4 && !sl.contains '\n' && !occursRaw sl (escapeText sl) &&
+        (occursRaw sl doc || (field == "gradpos" && occursRaw (mapGrad sl) doc))
       if verbatim || isInfix ('<' :: t) doc || isInfix ('&' :: t) doc || isInfix ('<' :: '!' :: '-' :: '-' :: t) doc
       then some field else none
     | _, _, _ => none
